@@ -480,7 +480,7 @@ fn gen_value(r: &mut Rng, t: &DataType, bad: Bad) -> SqlValue {
         }
         DataType::Character { length } => {
             if matches!(bad, Bad::CharNonAscii) || (bad == Bad::Mixed && r.chance(1, 3)) {
-                SqlValue::Character(r.pick(&["é", "a€", "😀"]).to_string())
+                SqlValue::Character(r.pick(&["é", "a€", "😀", "éééé", "日本語", "xé", "ab€"]).to_string())
             } else {
                 // ASCII only, at most `length` characters (the storage layer pads)
                 let mut s: String = gen_string(r, str_flavour, *length).chars().filter(|c| c.is_ascii()).collect();
@@ -702,6 +702,20 @@ fn is_special_float(v: &SqlValue) -> bool {
         _ => false,
     }
 }
+/// a CHAR(n) value with a non-blank character beyond its first n bytes: coerce_value measures the
+/// literal in bytes and cuts it (on a character boundary), the storage layer pads the rest back
+fn char_cut_loses(v: &SqlValue, t: &DataType) -> bool {
+    match (v, t) {
+        (SqlValue::Character(s), DataType::Character { length }) if s.len() > *length => {
+            let mut end = *length;
+            while !s.is_char_boundary(end) {
+                end -= 1;
+            }
+            s[end..].chars().any(|c| c != ' ')
+        }
+        _ => false,
+    }
+}
 /// the class of a failing database: the first listed defect feature the database carries
 fn classify(tabs: &[TableObs]) -> &'static str {
     let vals: Vec<&SqlValue> = tabs.iter().flat_map(|t| t.rows.iter().flat_map(|r| r.iter())).collect();
@@ -720,7 +734,7 @@ fn classify(tabs: &[TableObs]) -> &'static str {
         "smallint-value"
     } else if vals.iter().any(|v| matches!(v, SqlValue::Numeric(f) if f.to_string().parse::<i64>().is_ok())) {
         "numeric-whole-number"
-    } else if vals.iter().any(|v| matches!(v, SqlValue::Character(s) if !s.is_ascii())) {
+    } else if tabs.iter().any(|t| t.rows.iter().any(|r| r.iter().zip(t.cols.iter()).any(|(v, c)| char_cut_loses(v, &c.1)))) {
         "char-non-ascii"
     } else {
         "roundtrip-mismatch"
